@@ -2,6 +2,8 @@ package main
 
 import (
 	"bytes"
+	"fmt"
+	"strings"
 
 	"gitlab.com/gomidi/midi/v2/smf"
 )
@@ -23,20 +25,46 @@ func init() {
 				tags, nt := histTags(h)
 				emit(Case{Op: h.String(), Tags: tags, NonTrivial: nt})
 			}
+			// one file with more than 32767 tracks (the reader's track counter must not wrap); judged by the
+			// oracle only: the list-based model is quadratic in the number of tracks
+			nt := 33000
 			if tier == "thorough" {
-				// one file with 40 000 tracks (track counter must not wrap)
-				h := &history{format: 1, tf: smf.MetricTicks(96)}
-				for i := 0; i < 40000; i++ {
-					h.ops = append(h.ops, histOp{'s', 0, 0, nil})
-				}
-				emit(Case{Op: h.String(), Tags: []string{"40000-tracks"}, NonTrivial: true})
+				nt = 65535
 			}
+			emit(Case{Op: fmt.Sprintf("c01.manytracks n=%d", nt), Tags: []string{">32767-tracks"}, NonTrivial: true})
 		},
 		Run: runC01,
 	})
 }
 
 func runC01(c Case, m *Model) (v Verdict) {
+	if strings.HasPrefix(c.Op, "c01.manytracks") {
+		var n int
+		fmt.Sscanf(fields(c.Op)["n"], "%d", &n)
+		s := smf.NewSMF1()
+		s.TimeFormat = smf.MetricTicks(96)
+		for i := 0; i < n; i++ {
+			var t smf.Track
+			if i%1000 == 0 {
+				t.Add(uint32(i), []byte{0x90, byte(i % 128), 1})
+			}
+			t.Close(0)
+			s.Add(t)
+		}
+		var w bytes.Buffer
+		if p := try(func() {
+			if _, err := s.WriteTo(&w); err != nil {
+				panic(err)
+			}
+		}); p != "" {
+			v.Oracle = append(v.Oracle, "writing "+c.Op+": "+p)
+			return
+		}
+		if rb := readClass(w.Bytes()); rb != "ok:"+showSMF(s) {
+			v.Oracle = append(v.Oracle, fmt.Sprintf("a file with %d tracks does not read back to what was written: %s", n, short(rb)))
+		}
+		return
+	}
 	h, _ := parseHistory(c.Op)
 	mf := fields(m.Ask(c.Op))
 	// implementation
